@@ -104,3 +104,14 @@ package wire
 //@ guarded[C09] clientUpstreams.mu: acks, aliases, messageWriters
 //@ guarded[C09] clientDownstreams.mu: dps, dpsUnreliable, ackCompletes, metadata, aliases
 //@ guarded[C09] ClientConn.mu: replyCh
+
+//@ func NewAliasGenerator
+//@   props C04 C03
+//@   nopanic
+//@   modifies nothing
+//@   ensures result != nil && fresh(result) && result.currentValue == initial
+//@ func (*AliasGenerator).CurrentValue
+//@   props C04 C03
+//@   nopanic
+//@   modifies nothing
+//@   ensures result == g.currentValue
